@@ -90,6 +90,7 @@ def apply_directives(body, directives, unit):
     if "vecchain" in rules:
         body.rule_vec_chain()
     body.rule_closure_underscore()
+    body.rule_for_continue()
     toks = body.toks
     loops = None
     closures = None
